@@ -38,7 +38,7 @@ THEOREMS = [
     dict(name="Snow.C04.old_counterexample_stale_seed", clause="pre-repair code: equal seed keeps the stale shelf vector", strength="refutation-of-old-code"),
     dict(name="Snow.C04.old_counterexample_rerun", clause="pre-repair code: a second run continues the stream", strength="refutation-of-old-code"),
     dict(name="Snow.C04.old_counterexample_snowfall", clause="pre-repair code: Snowfall repetition 0 is not the standalone run", strength="refutation-of-old-code"),
-    dict(name="Snow.C04.old_partial_no_variability", clause="pre-repair code, s_sigma_rel = 0: a re-seeded run starts its dice at the head of the stream", strength="partial"),
+    dict(name="Snow.C04.old_partial_no_variability", clause="pre-repair code, s_sigma_rel = 0: a re-seeded run starts its dice at the head of the stream", strength="refutation-of-old-code"),
     dict(name="Snow.C04.nonvacuous", clause="concrete history / chunking instance", strength="nonvacuity"),
 ]
 TRUSTED = [
